@@ -93,6 +93,7 @@ extern void verif_rmw_commit(int site);
   ({ __typeof__(*(p)) so = (o); \
      __atomic_compare_exchange_n(VERIF_AT(p), &so, (n), 0, __ATOMIC_SEQ_CST, __ATOMIC_SEQ_CST); so; })
 #define __sync_synchronize() __atomic_thread_fence(__ATOMIC_SEQ_CST)
+#undef atomic_thread_fence
 #define atomic_thread_fence(mo) __atomic_thread_fence(mo)
 
 #endif
